@@ -302,4 +302,19 @@ reg(
     thorough={"shards": 16, "timeout_s": 4 * 3600, "n_cases": 100, "n1": 40000,
               "required_classes": ["C11.all_enum_exact", "C11.stochastic_calibrated", "C11.composition_of_different_estimator_kinds"]},
 )
+
+reg(
+    "C17",
+    "Conjugate cases: normal-normal targets in 1-3 dimensions with generated SPD prior/likelihood covariances and data; "
+    "mean_field_normal_family / full_covariance_normal_family with reparam and reinforce estimators; parameters generic and at "
+    "the exact posterior; oracles are the closed-form evidence, posterior, ELBO and (finite-difference of the closed form) "
+    "gradient. Recursion cases: optimize_vi on zero-variance objectives (sampling-free and enumeration-only) against the numpy "
+    "recursion params + lr * grad for every iterate. Non-trivial: all conjugate cases (q is neither prior nor posterior for the "
+    "statistical part); recursion cases with n_iterations >= 2. Distinct = hash of the case.",
+    quick={"shards": 16, "timeout_s": 1500, "n_cases": 5, "n1": 4000,
+           "required_classes": ["C17.family_mean_field", "C17.family_full_cov", "C17.estimator_reparam", "C17.estimator_reinforce",
+                                "C17.posterior_tightness_checked", "C17.recursion_quadratic", "C17.recursion_enum"]},
+    thorough={"shards": 16, "timeout_s": 4 * 3600, "n_cases": 60, "n1": 30000,
+              "required_classes": ["C17.family_mean_field", "C17.family_full_cov", "C17.posterior_tightness_checked", "C17.recursion_quadratic"]},
+)
 NOT_CLAIMED = {}
